@@ -62,6 +62,8 @@ fn file_text(es: &[AEntry], prefix: &str, ledger: &[u64]) -> String {
     s
 }
 
+const ST_NAMES: [&str; 8] = ["Ok", "Err IO NotFound", "Err IO other", "Err Parse", "Err other", "panic", "process aborted or hung", "Err InvalidIncludeGlob"];
+
 #[derive(Clone, Debug, PartialEq)]
 pub struct LObs {
     trace: Vec<(usize, u64)>,
@@ -78,6 +80,7 @@ fn load_err_code(e: &load::LoadError) -> (u8, String) {
     match e {
         load::LoadError::IO(io, _) => (if io.kind() == std::io::ErrorKind::NotFound { 1 } else { 2 }, d),
         load::LoadError::Parse(..) => (3, d),
+        load::LoadError::InvalidIncludeGlob(..) => (7, d),
         _ => (4, d),
     }
 }
@@ -234,7 +237,7 @@ fn entry_json(e: &AEntry) -> Value {
 }
 
 fn lobs_json(t: &Tree, o: &LObs) -> Value {
-    let st = ["Ok", "Err IO NotFound", "Err IO other", "Err Parse", "Err other", "panic", "process aborted or hung"][o.st.min(6) as usize];
+    let st = ST_NAMES[(o.st as usize).min(ST_NAMES.len() - 1)];
     json!({"status": st, "detail": o.detail,
            "delivered": o.trace.iter().map(|(i, id)| json!([t.files.get(*i).map(|f| vstr(&f.0)).unwrap_or("?".into()), id])).collect::<Vec<_>>()})
 }
@@ -522,14 +525,14 @@ impl<'a> Gen<'a> {
                 i += m;
             } else {
                 // glob include over g new files, visited in PathBuf order
-                let g = 1 + self.r.below(3) as usize;
+                let mut g = 1 + self.r.below(3) as usize;
                 let mut m = self.r.below(remaining.min(5) as u64 + 1) as usize;
                 if m < g && remaining >= g && self.r.chance(2, 3) {
                     m = g;
                 }
                 let base = self.choose_dir(&dir);
                 let base = self.open_dir(base);
-                let (pattern, mut targets): (VPath, Vec<VPath>) = match self.r.below(7) {
+                let (pattern, mut targets): (VPath, Vec<VPath>) = match self.r.below(13) {
                     0 | 1 => {
                         // every *.ledger of a fresh directory
                         self.tags.insert("glob:*.ledger".into());
@@ -599,6 +602,158 @@ impl<'a> Gen<'a> {
                         }
                         let mut p = tdir;
                         p.push("?.ledger".into());
+                        (p, ts)
+                    }
+                    7 | 8 => {
+                        // a character class and no other wildcard: years/202[34].ledger, q[1-4].ledger
+                        let tdir = self.fresh_dir(&base);
+                        self.closed.insert(tdir.clone());
+                        let (pat, names, decoys): (&str, &[&str], &[&str]) = match self.r.below(6) {
+                            0 => ("202[345].ledger", &["2023", "2024", "2025"], &["2022", "2026", "202", "20234", ".2023", "202[345]"]),
+                            1 => ("20[12][0-9].ledger", &["2010", "2024", "2019"], &["2030", "200", "20a4", "20[12][0-9]"]),
+                            2 => ("q[1-4].ledger", &["q1", "q2", "q3", "q4"], &["q0", "q5", "q", "q12", "Q1", "q[1-4]"]),
+                            3 => ("q[1-24].ledger", &["q1", "q2", "q4"], &["q3", "q-", "q[1-24]"]),
+                            4 => ("y[a-c][!0-9].ledger", &["yax", "ybé", "yc_", "ya-"], &["ya1", "ydx", "ya", "yA_", "yaxx"]),
+                            _ => ("[A-Ca][!.]x.ledger", &["A_x", "a0x", "Cxx", "Béx"], &["b_x", "D_x", "A.x", "Ax", "A_y"]),
+                        };
+                        self.tags.insert(format!("glob:class only ({})", pat));
+                        let mut names = names.to_vec();
+                        self.r.shuffle(&mut names);
+                        g = g.min(names.len());
+                        let ts: Vec<VPath> = names[..g]
+                            .iter()
+                            .map(|n| {
+                                let mut p = tdir.clone();
+                                p.push(format!("{}.ledger", n));
+                                self.reserve(&p);
+                                p
+                            })
+                            .collect();
+                        for dn in decoys {
+                            let mut d = tdir.clone();
+                            d.push(format!("{}.ledger", dn));
+                            self.decoy(d);
+                        }
+                        let mut p = tdir;
+                        p.push(pat.into());
+                        (p, ts)
+                    }
+                    9 => {
+                        // a negated class in front of a star: [!a]*.ledger
+                        let tdir = self.fresh_dir(&base);
+                        self.closed.insert(tdir.clone());
+                        let (pat, names, decoys): (&str, &[&str], &[&str]) = match self.r.below(3) {
+                            0 => ("[!a]*.ledger", &["b", "ba", "_", "é", "A", "b.c"], &["a", "ab", ".z", "a.b"]),
+                            1 => ("[!a-cx]*.ledger", &["d", "é", "_x", "A", "-"], &["a", "b1", "cc", "x", ".d"]),
+                            _ => ("*[!0-9].ledger", &["a", "1b", "é", "0.x", "9-"], &["1", "a0", ".a", "a.0"]),
+                        };
+                        self.tags.insert(format!("glob:class and star ({})", pat));
+                        let mut names = names.to_vec();
+                        self.r.shuffle(&mut names);
+                        g = g.min(names.len());
+                        let ts: Vec<VPath> = names[..g]
+                            .iter()
+                            .map(|n| {
+                                let mut p = tdir.clone();
+                                p.push(format!("{}.ledger", n));
+                                self.reserve(&p);
+                                p
+                            })
+                            .collect();
+                        for dn in decoys {
+                            let mut d = tdir.clone();
+                            d.push(format!("{}.ledger", dn));
+                            self.decoy(d);
+                        }
+                        let mut d = tdir.clone();
+                        d.push("deep".into());
+                        d.push("b.ledger".into());
+                        self.decoy(d);
+                        let mut d = tdir.clone();
+                        d.push("b.txt".into());
+                        self.decoy(d);
+                        let mut p = tdir;
+                        p.push(pat.into());
+                        (p, ts)
+                    }
+                    10 => {
+                        // a class in a directory component; component order differs from byte order
+                        let tdir = self.fresh_dir(&base);
+                        let (pat, names, decoys): (&str, &[&str], &[&str]) = match self.r.below(3) {
+                            0 => ("[st]*", &["s", "s-1", "t.d", "t", "s x"], &[".s", "u", "Sx"]),
+                            1 => ("d[0-9]", &["d0", "d5", "d9"], &["da", "d", "d10", "d[0-9]"]),
+                            _ => ("s[!q]*", &["s-1", "sa", "s.d", "s+"], &["sq", "s", ".s-"]),
+                        };
+                        self.tags.insert(format!("glob:class in a directory ({}/f.ledger)", pat));
+                        let mut names = names.to_vec();
+                        self.r.shuffle(&mut names);
+                        if pat == "[st]*" && g >= 2 {
+                            // s < s-1 as components, s-1/ < s/ as strings
+                            names.retain(|x| *x != "s" && *x != "s-1");
+                            names.insert(0, "s");
+                            names.insert(1, "s-1");
+                        }
+                        g = g.min(names.len());
+                        let ts: Vec<VPath> = names[..g]
+                            .iter()
+                            .map(|n| {
+                                let mut p = tdir.clone();
+                                p.push(n.to_string());
+                                p.push("f.ledger".into());
+                                self.reserve(&p);
+                                p
+                            })
+                            .collect();
+                        for dn in decoys {
+                            let mut d = tdir.clone();
+                            d.push(dn.to_string());
+                            d.push("f.ledger".into());
+                            self.decoy(d);
+                        }
+                        let mut d = tdir.clone();
+                        d.push(names[0].to_string());
+                        d.push("g.ledger".into());
+                        self.decoy(d);
+                        let mut p = tdir;
+                        p.push(pat.into());
+                        p.push("f.ledger".into());
+                        (p, ts)
+                    }
+                    11 => {
+                        // how classes are written: `]` first, a dash at the end, metacharacters and
+                        // dots inside, non-ASCII members
+                        let tdir = self.fresh_dir(&base);
+                        self.closed.insert(tdir.clone());
+                        let (pat, names, decoys): (&str, &[&str], &[&str]) = match self.r.below(8) {
+                            0 => ("[]x].ledger", &["]", "x"], &["y", "]x", "[]x]"]),
+                            1 => ("[a-].ledger", &["-", "a"], &["b", "a-"]),
+                            2 => ("[!]].ledger", &["x", "-", "é"], &["]", "xx"]),
+                            3 => ("[é日].ledger", &["é", "日"], &["e", "é日"]),
+                            4 => ("[*?].ledger", &["*", "?"], &["x", "**", "[*?]"]),
+                            5 => ("x[.-]y.ledger", &["x.y", "x-y"], &["x_y", "xy", "x,y"]),
+                            6 => ("[.a]b.ledger", &["ab"], &[".b", "bb", "b"]),
+                            _ => ("[]-a]z.ledger", &["]z", "^z", "az", "_z"], &["bz", "\\z", "Zz", "-z"]),
+                        };
+                        self.tags.insert(format!("glob:class spelling ({})", pat));
+                        let mut names = names.to_vec();
+                        self.r.shuffle(&mut names);
+                        g = g.min(names.len());
+                        let ts: Vec<VPath> = names[..g]
+                            .iter()
+                            .map(|n| {
+                                let mut p = tdir.clone();
+                                p.push(format!("{}.ledger", n));
+                                self.reserve(&p);
+                                p
+                            })
+                            .collect();
+                        for dn in decoys {
+                            let mut d = tdir.clone();
+                            d.push(format!("{}.ledger", dn));
+                            self.decoy(d);
+                        }
+                        let mut p = tdir;
+                        p.push(pat.into());
                         (p, ts)
                     }
                     _ => {
@@ -718,10 +873,32 @@ fn gen_tree(r: &mut Rng) -> (Tree, BTreeSet<String>) {
                     Some(k) => w[..=k].to_string(),
                     None => String::new(),
                 };
-                let last = *r.pick(&["missing.ledger", "nomatch-*.ledger", "*.nothing", "?.nope", ".h*.nope"][..]);
+                let last = *r.pick(&["missing.ledger", "nomatch-*.ledger", "*.nothing", "?.nope", ".h*.nope", "[0-9].nope", "no[!a-z]match.ledger", "[z-a].ledger", "q[5-9].nope", "[!a].nope"][..]);
                 t.files[fi].1[ei] = AEntry::Inc(format!("{}{}", dirpart, last));
                 t.kind = 1;
                 tags.insert("include:matches nothing".into());
+            }
+        }
+    }
+    // one include given a `[` that is never closed: LoadError::InvalidIncludeGlob
+    if t.kind == 0 && r.chance(1, 10) {
+        let incs: Vec<(usize, usize)> = t
+            .files
+            .iter()
+            .enumerate()
+            .flat_map(|(fi, (_, es))| es.iter().enumerate().filter(|(_, e)| matches!(e, AEntry::Inc(_))).map(move |(ei, _)| (fi, ei)))
+            .collect();
+        if !incs.is_empty() {
+            let (fi, ei) = *r.pick(&incs);
+            if let AEntry::Inc(w) = &t.files[fi].1[ei] {
+                let dirpart = match w.rfind('/') {
+                    Some(k) => w[..=k].to_string(),
+                    None => String::new(),
+                };
+                let last = *r.pick(&["x[.ledger", "[", "[!", "[!]", "[]", "a[]b.ledger", "*[a.ledger", "202[34.ledger", "[a-c]x[!].ledger", "?[!x"][..]);
+                t.files[fi].1[ei] = AEntry::Inc(format!("{}{}", dirpart, last));
+                t.kind = 3;
+                tags.insert("include:unclosed [ (invalid pattern)".into());
             }
         }
     }
@@ -743,7 +920,7 @@ fn gen_tree(r: &mut Rng) -> (Tree, BTreeSet<String>) {
 fn nontrivial(t: &Tree) -> bool {
     let loaded = t.files.iter().filter(|(_, es)| !es.iter().any(|e| matches!(e, AEntry::Garbage(_)))).count();
     let special = t.files.iter().any(|(_, es)| {
-        es.iter().any(|e| matches!(e, AEntry::Inc(w) if w.contains('*') || w.contains('?') || w.split('/').any(|c| c == "..")))
+        es.iter().any(|e| matches!(e, AEntry::Inc(w) if w.contains('*') || w.contains('?') || w.contains('[') || w.split('/').any(|c| c == "..")))
     });
     loaded >= 2 && special
 }
@@ -772,14 +949,14 @@ fn flush(q: &mut Vec<Pending>, sh: &mut Shards, st: &mut Stats, dir: &Path) {
 fn record(sh: &mut Shards, st: &mut Stats, t: &Tree, o: &Observed, tags: &BTreeSet<String>, source: &str) {
     st.eval(t, nontrivial(t));
     st.count(&format!("source:{}", source));
-    st.count(&format!("kind:{}", ["cut of a ledger", "cut with an include that matches nothing", "free-form tree"][t.kind.min(2) as usize]));
+    st.count(&format!("kind:{}", ["cut of a ledger", "cut with an include that matches nothing", "free-form tree", "cut with an include whose pattern is invalid"][t.kind.min(3) as usize]));
     for tag in tags {
         st.count(&format!("trees with {}", tag));
     }
     let nfiles = t.files.iter().filter(|(_, es)| !es.iter().any(|e| matches!(e, AEntry::Garbage(_)))).count();
     st.count(&format!("files (without decoys):{}", if nfiles >= 8 { "8+".to_string() } else { nfiles.to_string() }));
     st.add("decoy files (dot-files, deeper levels, other suffixes)", (t.files.len() - nfiles) as u64);
-    st.count(&format!("impl:{}", ["ok", "IO NotFound", "IO other", "Parse", "other error", "panic", "process aborted or hung"][o.fake.st.min(6) as usize]));
+    st.count(&format!("impl:{}", ST_NAMES[(o.fake.st as usize).min(ST_NAMES.len() - 1)]));
     if o.fake.trace != o.real.trace || o.fake.st != o.real.st {
         st.count("impl:in-memory and real file system DISAGREE");
     }
@@ -797,8 +974,8 @@ pub fn run(o: &Opts) {
         o.shards,
         "From Coq Require Import List NArith.\nFrom Okv Require Import Model.Glob Model.Load Run.Classify_C11.\nImport ListNotations.\nOpen Scope N_scope.",
     );
-    st.rule = "a case = a ledger of 0-10 identifiable transactions (running balance assertions make the order matter) cut at entry boundaries into a random tree of files (depth <= 4; sub-directories, parent and sibling directories through .., ./, up-and-back and absolute written paths; literal includes; glob includes *.ledger, prefix*.ledger, ?.ledger, dir*/f.ledger and */f.ledger whose matches are assigned consecutive chunks in PathBuf order; decoy files that must not match: dot-files, deeper levels, other suffixes; names with '.', '-', ' ', '+' and non-ASCII letters so that component order differs from string order), one sixth of them with one include changed to match nothing, one in twenty with an include back to the root (a cycle: LoadError::IncludeCycle); loaded in child processes with Loader::load on FakeFileSystem and with new_loader on a real directory, plus report::process balances of the tree vs the uncut ledger; non-trivial = at least 2 loaded files and at least one glob or .. include; distinct by the whole tree".into();
-    st.assumptions.push("patterns use only literals, * and ? (no [...] or **); . and .. components occur only before the first wildcard component and never climb above the tree's top directory; no pattern's last component matches a directory; no symlinks, valid UTF-8 names and contents".into());
+    st.rule = "a case = a ledger of 0-10 identifiable transactions (running balance assertions make the order matter) cut at entry boundaries into a random tree of files (depth <= 4; sub-directories, parent and sibling directories through .., ./, up-and-back and absolute written paths; literal includes; glob includes *.ledger, prefix*.ledger, ?.ledger, dir*/f.ledger and */f.ledger, and character classes: 202[345].ledger, 20[12][0-9].ledger, q[1-4].ledger, y[a-c][!0-9].ledger, [!a]*.ledger, *[!0-9].ledger, [st]*/f.ledger, d[0-9]/f.ledger, and the spellings []x], [a-], [!]], [*?], x[.-]y, [.a]b, []-a], [é日] — whose matches are assigned consecutive chunks in PathBuf order; decoy files that must not match: dot-files, deeper levels, other suffixes, characters just outside a class or range, the other letter case, a file named like the pattern itself; names with '.', '-', ' ', '+' and non-ASCII letters so that component order differs from string order), one sixth of them with one include changed to match nothing (also a class that matches nothing, an empty range), one in ten of the rest with one include given a `[` that is never closed (LoadError::InvalidIncludeGlob), one in twenty with an include back to the root (a cycle: LoadError::IncludeCycle); loaded in child processes with Loader::load on FakeFileSystem and with new_loader on a real directory, plus report::process balances of the tree vs the uncut ledger; non-trivial = at least 2 loaded files and at least one glob (wildcard or class) or .. include; distinct by the whole tree".into();
+    st.assumptions.push("patterns use literals, *, ? and character classes [...] / [!...] (no **); no class lists the separator '/' and no pattern component that holds a wildcard or a class begins with a literal dot (on both the real file system differs from the in-memory one, see the level note); . and .. components occur only before the first wildcard component and never climb above the tree's top directory; no pattern's last component matches a directory; no symlinks, valid UTF-8 names and contents".into());
     let sc = Scratch::new("c11");
     let mut q: Vec<Pending> = Vec::new();
     let mut files: Vec<PathBuf> = Vec::new();
